@@ -141,7 +141,8 @@ def clause2_owner(ctx, P):
     ctx.ob("C04.2 R-WHO", rm, "remove_element:sites", len(calls) >= 1, "remove handler no longer removes anything")
     for c in calls:
         lv, flds = Q.leaves(P, rm, c.a[0])
-        from_own_list = all(l[0] == "param" and l[1] == 0 for l in lv) and ("struct.peer", "element_list") in flds
+        lvn = [l for l in lv if l != ("null",)]   # "not found" is NULL and is refused before the removal
+        from_own_list = bool(lvn) and all(l[0] == "param" and l[1] == 0 for l in lvn) and ("struct.peer", "element_list") in flds
         e_t = P.term(rm, c.a[0])
 
         def owner(atom, pol):
@@ -160,7 +161,28 @@ def clause2_owner(ctx, P):
             if atom[0] != "cmp" or not Q.is_call_to(atom[2], ("strcmp", "jet_strcmp")) or atom[3] != ("const", 0):
                 return False
             return (atom[1] == "eq" and pol) or (atom[1] == "ne" and not pol)
-        ctx.ob("C04.2 R-GATE", rm, Q.ordinal_site(rm, c, P) + ":path", Q.must_pass(P, rm, c.block, same_path),
+        okpath = Q.must_pass(P, rm, c.block, same_path)
+        if not okpath:
+            # the search may sit in a helper that returns the found element or NULL: then the removal is guarded by
+            # `found != NULL`, and every non-NULL way into that value comes through the path comparison
+            for (atom, pol) in Q.guards_of(P, rm, c.block):
+                if atom[0] == "cmp" and atom[2][0] == "phi" and atom[3] == ("null",) and not Q._poleq(atom, pol):
+                    ph = rm.insts[atom[2][1]]
+                    # leaves of the phi, looking through phis that merely forward another phi (a helper's single return block)
+                    nn = []
+                    work = list(ph.inc)
+                    seenp = {ph.id}
+                    while work:
+                        v, pb = work.pop()
+                        sv = P.strip(rm, v)
+                        if isinstance(sv, int) and sv >= rm.nparams and rm.insts[sv].op == "phi" and sv not in seenp:
+                            seenp.add(sv)
+                            work.extend(rm.insts[sv].inc)
+                        elif not P.is_null(v):
+                            nn.append((v, pb))
+                    if nn and all(Q.must_pass(P, rm, pb, same_path) for (v, pb) in nn):
+                        okpath = True
+        ctx.ob("C04.2 R-GATE", rm, Q.ordinal_site(rm, c, P) + ":path", okpath,
                "remove: element removed without comparing its path with the requested one")
     # who else calls remove_element / stores element.value
     for c in Q.call_sites(P, "remove_element"):
